@@ -191,6 +191,12 @@ fn replay(p: &std::path::Path) {
             if gl != want { println!("split at {}: {:?}", k, gl); got = gl; break; }
         }
     }
+    if rp["optimized"].as_bool().unwrap_or(false) {
+        let eo = build(&lines, &tagrefs, true);
+        let go = engine_verdict_p(&eo, &req, mr, fc);
+        println!("engine built with optimisation={:?}", go);
+        if go != want { got = go; }
+    }
     println!("engine={:?}\nrule-by-rule={:?}", got, want);
     if got != want {
         println!("VIOLATION property=C01 replay={}", p.display());
@@ -357,6 +363,10 @@ fn main() {
         let tagset: HashSet<String> = tags.iter().map(|s| s.to_string()).collect();
         // a third of the engines reach their tag set through enable / disable calls
         let e = if li % 3 == 1 { cs.stat("engine_tags_via_history"); build_via_history(&lines, tags) } else { build(&lines, tags, false) };
+        // the same list as Engine::from_rules builds it by default: with optimisation (fused rules);
+        // not used when a /regex/ of the list does not compile (C05's known class)
+        let bad_regex = lines.iter().any(|l| { let p = l.trim_start_matches("@@"); let p = p.split('$').next().unwrap_or(""); p.len() > 2 && p.starts_with('/') && p.ends_with('/') && regex::bytes::Regex::new(&p[1..p.len() - 1]).is_err() });
+        let e_opt = if bad_regex { None } else { Some(build(&lines, tags, true)) };
         let bd = dump_engine_blocker(&e);
         // WellIndexed on every dumped list, against the rules the model puts into that list
         let model_lists = [
@@ -449,6 +459,15 @@ fn main() {
                 if gl != want && got == want {
                     sm.failure(None, &format!("a Blocker built from a prefix of the list plus add_filter for the rest says {:?}, rule-by-rule evaluation says {:?} (the batch engine agrees with the latter)", gl, want),
                         json!({"rules": lines, "tags": tags, "url": url, "source": src, "type": ty, "matched_rule": mr, "force_check_exceptions": fc, "incremental": true}));
+                }
+            }
+            if let Some(eo) = &e_opt {
+                let go = engine_verdict_p(eo, &req, mr, fc);
+                sm.oracle_evaluations += 1;
+                cs.stat("optimized_engine_verdicts");
+                if go != want && got == want {
+                    sm.failure(None, &format!("the engine built with optimisation says {:?}, rule-by-rule evaluation says {:?} (the unoptimised engine agrees with the latter)", go, want),
+                        json!({"rules": lines, "tags": tags, "url": url, "source": src, "type": ty, "matched_rule": mr, "force_check_exceptions": fc, "optimized": true}));
                 }
             }
             let desc = json!({"rules": lines, "tags": tags, "url": url, "source": src, "type": ty, "matched_rule": mr, "force_check_exceptions": fc, "matching_ids": matching, "impl": vjson(&got)});
